@@ -6,3 +6,5 @@ import Smoke.Refine
 import Smoke.Scan
 import Smoke.ScanProof
 import Smoke.Prec
+import Smoke.Tree
+import Smoke.ScanNoPanic
